@@ -24,8 +24,9 @@ Definition cons_opt (x : option state) (l : list state) : R (list state) :=
 
 (* ---- Mplus / Bind (micro/disj.go, micro/conj.go) ---- *)
 
-(* a goal as Bind uses it: how to run it on a state, and how the model names the suspended Bind over a thunk *)
-Definition sgoal : Type := ((state -> stream) * (thunk -> thunk))%type.
+(* a goal as the stream operators use it: how to run it on a state, how the model names the suspended Bind of it over a
+   thunk, and how the model names the suspension of the goal itself at a state (the model is defunctionalised) *)
+Record sgoal : Type := mkSGoal { sg_run : state -> stream; sg_bind : thunk -> thunk; sg_thunk : state -> thunk }.
 
 (* s.state of a cell: nil for an immature cell; a nil dereference on nil *)
 Definition cell_state (s : stream) : R (option state) :=
@@ -42,7 +43,7 @@ Definition cell_state (s : stream) : R (option state) :=
 Definition susp_mplus (y x : stream) : R stream :=
   match x with SSusp th => Ret (SSusp (TMplus y th)) | SErr => OOF_ | _ => Panic end.
 Definition susp_bind (g : sgoal) (x : stream) : R stream :=
-  match x with SSusp th => Ret (SSusp (snd g th)) | SErr => OOF_ | _ => Panic end.
+  match x with SSusp th => Ret (SSusp (sg_bind g th)) | SErr => OOF_ | _ => Panic end.
 
 (* NewStream(car, func() { return t }): a mature cell; its lazily computed tail is modelled as the computed tail.
    NewStream(nil, proc) would be an immature cell: outside the model, and the code passes a non-nil car. *)
@@ -51,4 +52,12 @@ Definition new_stream (car : option state) (t : stream) : R stream :=
 
 (* g(car) *)
 Definition app_goal (g : sgoal) (car : option state) : R stream :=
-  match car with Some a => Ret (fst g a) | None => Panic end.
+  match car with Some a => Ret (sg_run g a) | None => Panic end.
+
+(* Suspension(func() { return g(s) }): the goal g suspended at s *)
+Definition susp_goal (g : sgoal) (s : option state) : R stream :=
+  match s with Some st => Ret (SSusp (sg_thunk g st)) | None => Panic end.
+
+(* s.Counter, s.Substitutions: a nil dereference on a nil state *)
+Definition st_counter (s : option state) : R N := match s with Some st => Ret (ctr st) | None => Panic end.
+Definition st_subst (s : option state) : R subst := match s with Some st => Ret (sub st) | None => Panic end.
